@@ -16,6 +16,12 @@ CLAIMED = {
  'C03': ("Coq proofs that unfitted bands have zero weight and never enter the least-squares sums, chi2 = S + penalties exactly when violated, confidence 0/1 clauses, flag 4 = transformed flag 1 (Flags.v, FlagsProofs.v); exhaustive flag-vector correspondence through one Fitter",
          "Theorems C03_weights/not_in_lsq/not_in_lsq_3d/unused_chi2/penalty/conf0/conf1/flag4; every flag vector over {0,1,2,3,4,9}^n (n<=3 quick, <=5 thorough) x random photometry: base source vs hostile ignored values, confidence-0 limits vs flag 0, flag-4 rewrite, changed limit values, in both fit modes, bit-exact between implementation runs and against the model.",
          "Trusts: Coq kernel; extraction; driver; harness. Near-ties of a prediction with a limit are not judged.", "DESIGN.md 7/C03"),
+ 'C04': ("Coq proofs that one argsort gathered into every column re-orders the zipped rows, yields a permutation, and leaves chi2 sorted in numpy order (SortRows.v, RankProofs.v) + correspondence of rank_m and per-model results with Fitter.fit on grids with ties and 1e30 penalties",
+         "Theorems C04_aligned/sorted/sorted_for_C05/perm/any_ranking/pred_2d/pred_3d; implementation rows matched by model index against the model's per-model fit, chi2 monotone, model_id a permutation, order compared with rank_m on the same values (tie groups as multisets), predictions recomputed from the named model.",
+         "Trusts: as C01/C02. Order inside exact tie groups is left open (numpy's sort is unstable).", "DESIGN.md 7/C04"),
+ 'C11': ("Coq proofs of band-permutation invariance (sums are permutation-invariant), model-permutation equivariance, and the brightness-scaling law scale -> scale - lg(c)/2 with A_V and chi2 unchanged (FitPerm.v, InvarProofs.v) + paired implementation runs incl. fit histories on one Fitter",
+         "Theorems C11_band_perm(_chi2,_3d)/model_perm/scale/scale_chi2 for any sizes; paired runs: permuted filters, permuted model rows, scaled photometry, up to 6 interleaved fits per Fitter vs fresh Fitters, before/after state of the Source.",
+         "Trusts: as C01/C02. History-independence and non-mutation are established by the correspondence runs only (the model is pure by construction) - partial.", "DESIGN.md 7/C11"),
  'C20': ("Coq proof over the statement-by-statement model of Source.from_ascii (SrcAscii.v: slices, strides, truncating division, setter cross-checks) + correspondence on generated token lists incl. every column count",
          "Theorems C20_layout/reject/accept/flags/eof hold for token lists of any length; the extracted from_ascii_m is run against Source.from_ascii on valid lines (all flag vectors n<=3), every column count 0..3n+6 for n<=12, bad flags, bad numbers; round trips through to_ascii, dict and pickle are checked against the printed precision.",
          "Trusts: Coq kernel; extraction directives; driver; harness. int()/float() conversion of tokens is an oracle computed by Python; text formatting (to_ascii) is exercised, not modelled.", "DESIGN.md 7/C20"),
